@@ -194,7 +194,7 @@ def gen_record(rng, dates, directory=None, root=False, nonwf=None):
             "entries": [gen_entry(rng, f, directory, dates) for f in fmts], "prev": prev}
 
 
-def gen_hashlist(rng, dates, nonwf=None):
+def gen_hashlist(rng, dates, nonwf=None, n_records=None):
     authors = []
     for _ in range(rng.choice([0, 0, 1, 1, 2, 4])):
         name = rng.choice([None, "", gen_text(rng), gen_text(rng), gen_text(rng)])
@@ -223,7 +223,12 @@ def gen_hashlist(rng, dates, nonwf=None):
         root = gen_record(rng, dates, directory=True, root=True, nonwf=nonwf if nonwf == "dupfmt" else None)
     process = (rng.choice(["in-place", "flatten", "in-place", gen_text(rng)]), opt(rng, lambda: gen_text(rng), 0.7))
     n = rng.choice([0, 1, 1, 2, 3, 5, 8]) if rng.random() < 0.93 else 40
+    n = n if n_records is None else n_records
     records = [gen_record(rng, dates, nonwf=nonwf) for _ in range(n)]
+    if n_records is not None:
+        # long path texts: wherever the reader's blocks end, some path text straddles the end of one
+        for k, rec in enumerate(records):
+            rec["path"] = gen_path(rng, normal=True) + "/" + "reel_%04d_" % k + gen_text(rng, "name") * 3 + "_take_" * rng.randrange(10, 30) + gen_text(rng, "name")
     if nonwf in ("xxh32", "dirsize0", "dupfmt") and not records:
         records = [gen_record(rng, dates, directory=(nonwf != "xxh32"), nonwf=nonwf)]
     refs = []
@@ -969,9 +974,9 @@ def sequence_case(rep, model, scratch, rng, i):
 
 
 # -------------------------------------------------------------------------------------------------------- check
-def run_object(rep, model, scratch, rng, i, nonwf=None):
+def run_object(rep, model, scratch, rng, i, nonwf=None, n_records=None):
     dates = {}
-    spec = gen_hashlist(rng, dates, nonwf=nonwf)
+    spec = gen_hashlist(rng, dates, nonwf=nonwf, n_records=n_records)
     tag = f"{i}" + (f"/{nonwf}" if nonwf else "")
     classify_texts(rep, spec)
     rep.count(f"hashlist.records.{min(len(spec['records']), 9)}{'+' if len(spec['records']) > 9 else ''}")
@@ -1073,6 +1078,10 @@ def check(rep, tier, seed):
         # objects outside wf: the model must still predict what the real writer + reader do (no oracle)
         for j, kind in enumerate(["xxh32", "dash", "dirsize0", "dupfmt"] * (2 if tier == "quick" else 10)):
             run_object(rep, model, scratch, rng, 100000 + j, nonwf=kind)
+        # manifests far larger than any read block of the streaming reader (hundreds of KB): every record comes back
+        for j, nrec in enumerate([700] if tier == "quick" else [700, 2500, 2500]):
+            run_object(rep, model, scratch, core.rng_for(seed, f"C10big{j}"), 200000 + j, n_records=nrec)
+            rep.count("hashlist.big")
         for i in range(n_seq):
             sequence_case(rep, model, scratch, core.rng_for(seed, f"C10seq{i}"), i)
         subminute_zone(rep, scratch)
@@ -1085,7 +1094,7 @@ RULE = ("random MHLHashList / MHLChain objects: text of every field from a weigh
         "U+2028/2029, inner tabs, backslash), lengths 0/1/../200; sizes None/0/1/n/2^31..10^25; every subset of the six formats (plus a repeated one), actions "
         "original/verified/failed/new/None/''/free text, hash dates aware (offsets -23:59..+23:59) and naive, with and without microseconds, or absent; directory records "
         "with content+structure; previous paths; paths in and out of pathlib normal form; root hash absent/empty/present; 0..9 patterns; 0..4 authors with optional "
-        "email/phone/role; location/comment; 0..4 references (real child files); chains of 0..15 entries with int / string / odd sequence numbers. Each object goes through "
+        "email/phone/role; one object (thorough: three) with 700-2500 records, i.e. a file of several hundred KB; location/comment; 0..4 references (real child files); chains of 0..15 entries with int / string / odd sequence numbers. Each object goes through "
         "the REAL writer and REAL reader and through xml.etree; compared with the extracted emit/read/canon. Plus manifests and chain files written by random command "
         "sequences (create with -dr/-i/creator options, nested, -sf, flatten; rich file names incl. U+2028) through reader-vs-model-reader-vs-independent-reader. "
         "Non-trivial: object has >= 1 record / chain has > 1 entry / sequence wrote >= 1 file.")
